@@ -2775,7 +2775,7 @@ class FuncIsinstanceMonad(FuncMonad):
         discr_attr = entity._discriminator_attr_
         assert discr_attr is not None
         discr_values = [ [ 'VALUE', cls._discriminator_ ] for cls in subclasses ]
-        alias, pk_columns = obj.tableref.make_join(pk_only=True)
+        alias, pk_columns = obj.tableref.make_join()  # the discriminator column lives in the entity's own table: a pk-only join is not enough
         sql = [ 'IN', [ 'COLUMN', alias, discr_attr.column ], discr_values ]
         return BoolExprMonad(sql, nullable=False)
 
